@@ -370,3 +370,271 @@ def oracle_verify(m2: bytes, m4, transport: str, acc_id: bytes, ltpk: bytes, eph
     if T_STATE in v4 and v4[T_STATE] != b"\x04":
         return None, None, "m4:state"
     return "full", shared, None
+
+
+# ====================================================================== pair-setup (C03)
+# ------------------------------------------------------------------ SRP-6a, RFC 5054 + HAP R2 5.5
+def _arctan_inv(x: int, one: int) -> int:
+    """arctan(1/x) * one, integer arithmetic"""
+    total = term = one // x
+    x2, n, sign = x * x, 3, -1
+    while term:
+        term //= x2
+        total += sign * (term // n)
+        sign, n = -sign, n + 2
+    return total
+
+
+def _pi_floor(bits: int) -> int:
+    """floor(pi * 2**bits) (Machin), with guard bits"""
+    guard = 64
+    one = 1 << (bits + guard)
+    pi = 4 * (4 * _arctan_inv(5, one) - _arctan_inv(239, one))
+    return pi >> guard
+
+
+# RFC 5054 appendix A 3072-bit group = RFC 3526 group 15:
+#   p = 2^3072 - 2^3008 - 1 + 2^64 * ( [2^2942 pi] + 1690314 ),  g = 5
+SRP_N = 2 ** 3072 - 2 ** 3008 - 1 + 2 ** 64 * (_pi_floor(2942) + 1690314)
+SRP_G = 5
+SRP_LEN = 384
+
+
+def _H(*parts: bytes) -> bytes:
+    return hashlib.sha512(b"".join(parts)).digest()
+
+
+def _pad(n: int) -> bytes:
+    return n.to_bytes(SRP_LEN, "big")
+
+
+def _minimal(n: int) -> bytes:
+    return n.to_bytes((n.bit_length() + 7) // 8, "big")
+
+
+_srp_checked = False
+
+
+def srp_selfcheck():
+    """the derived modulus is a safe prime congruent 7 mod 8 ... (Miller-Rabin, two bases), once"""
+    global _srp_checked
+    if _srp_checked:
+        return
+    for p in (SRP_N, (SRP_N - 1) // 2):
+        d, r = p - 1, 0
+        while d % 2 == 0:
+            d //= 2
+            r += 1
+        for a in (2, 3):
+            x = pow(a, d, p)
+            if x in (1, p - 1):
+                continue
+            for _ in range(r - 1):
+                x = x * x % p
+                if x == p - 1:
+                    break
+            else:
+                raise AssertionError("derived SRP modulus is not a safe prime")
+    _srp_checked = True
+
+
+SRP_K = int.from_bytes(_H(_minimal(SRP_N), _pad(SRP_G)), "big")
+USER = b"Pair-Setup"
+
+
+def srp_x(salt: bytes, code: bytes) -> int:
+    return int.from_bytes(_H(salt, _H(USER + b":" + code)), "big")
+
+
+def srp_hgroup() -> bytes:
+    hn, hg = _H(_minimal(SRP_N)), _H(_minimal(SRP_G))
+    return bytes(a ^ b for a, b in zip(hn, hg))
+
+
+def srp_client_proof(salt: bytes, A: bytes, B: bytes, K: bytes) -> bytes:
+    return _H(srp_hgroup(), _H(USER), salt, A, B, K)
+
+
+def srp_server_proof(A: bytes, M1: bytes, K: bytes) -> bytes:
+    return _H(A, M1, K)
+
+
+def srp_client_K(code: bytes, salt16: bytes, a: int, A: bytes, B: bytes) -> bytes:
+    """client side session key for the oracle: S = (B - k g^x)^(a + u x), K = H(PAD(S))"""
+    x = srp_x(salt16, code)
+    u = int.from_bytes(_H(A, B), "big")
+    Bi = int.from_bytes(B, "big")
+    S = pow((Bi - SRP_K * pow(SRP_G, x, SRP_N)) % SRP_N, a + u * x, SRP_N)
+    return _H(_pad(S))
+
+
+def norm_salt(salt: bytes):
+    """what an integer-valued salt means as 16 bytes; None if it does not fit"""
+    s = salt.lstrip(b"\x00")
+    return None if len(s) > 16 else bytes(16 - len(s)) + s
+
+
+L_PSE_SALT, L_PSE_INFO = b"Pair-Setup-Encrypt-Salt", b"Pair-Setup-Encrypt-Info"
+L_PSC_SALT, L_PSC_INFO = b"Pair-Setup-Controller-Sign-Salt", b"Pair-Setup-Controller-Sign-Info"
+L_PSA_SALT, L_PSA_INFO = b"Pair-Setup-Accessory-Sign-Salt", b"Pair-Setup-Accessory-Sign-Info"
+SRP_LABEL = b"Hgroup|H(Pair-Setup)"          # stands for the constant prefix of M1 in the symbolic model
+
+
+class M6Draft:
+    def __init__(self, state, sub_items, key, nonce, aad):
+        self.state, self.sub_items, self.key, self.nonce, self.aad = state, sub_items, key, nonce, aad
+        self.sub_raw = None
+
+    def build(self, U: Universe):
+        pt = U.plaintext(self.sub_raw) if self.sub_raw is not None else U.tlv(self.sub_items)
+        return [(T_STATE, self.state), (T_ENC, U.seal(self.key, self.nonce, self.aad, pt))]
+
+
+class SetupAccessory:
+    """HAP R2 5.6 pair-setup, accessory side, dual-valued."""
+
+    def __init__(self, U: Universe, code: bytes, salt: bytes, b: int, acc_id: bytes, ltsk: int,
+                 client_name: int = 41, ctrl_ltsk_name: int = 12, lenient: bool = False):
+        srp_selfcheck()
+        self.U, self.code, self.salt, self.bname = U, bytes(code), bytes(salt), b
+        self.acc_id, self.ltsk = bytes(acc_id), ltsk
+        self.client_name, self.ctrl_ltsk_name = client_name, ctrl_ltsk_name
+        self.lenient = lenient            # a malicious accessory: answers M3 with its own proof even if M1 is wrong
+        self.b = int.from_bytes(hashlib.sha512(b"verif|srp-b|" + str(b).encode()).digest()[:32], "big")
+        self.v = pow(SRP_G, srp_x(self.salt, self.code), SRP_N)
+        self.B = (SRP_K * self.v + pow(SRP_G, self.b, SRP_N)) % SRP_N
+        self.code_v, self.salt_v = lit(self.code), lit(self.salt)
+        self.B_v = U._reg(V(_pad(self.B), (f"srpB({b},{msg(self.code_v)},{msg(self.salt_v)})",)))
+        self.K = None
+        self.stored = None
+        self.m3_ok = self.m5_ok = None
+
+    def on_m1(self, m1: bytes):
+        return [(T_STATE, lit(b"\x02")), (T_PK, self.B_v), (T_SALT, self.salt_v)]
+
+    def on_m3(self, m3: bytes):
+        """returns (accepted, reply items)"""
+        U = self.U
+        d = dict(ref_decode(m3) or [])
+        reject = [(T_STATE, lit(b"\x04")), (T_ERROR, lit(b"\x02"))]
+        A = d.get(T_PK)
+        M1 = d.get(T_PROOF)
+        if d.get(T_STATE) != b"\x03" or A is None or M1 is None or int.from_bytes(A, "big") % SRP_N == 0:
+            self.m3_ok = False
+            return False, reject
+        A_v = U._reg(V(A, (f"srpA({self.client_name})",)))
+        u = int.from_bytes(_H(_pad(int.from_bytes(A, "big")), _pad(self.B)), "big")
+        S = pow(int.from_bytes(A, "big") * pow(self.v, u, SRP_N), self.b, SRP_N)
+        Kb = _H(_pad(S))
+        K_v = U._reg(V(Kb, (f"srpks({msg(self.code_v)},{msg(self.salt_v)},{self.bname},{msg(A_v)})",)))
+        self.K, self.A_v = K_v, A_v
+        want = srp_client_proof(self.salt, A, _pad(self.B), Kb)
+        ok = bytes(M1) == want
+        self.m3_ok = ok
+        if ok:
+            M1_v = U._reg(V(want, ("hash(" + msg(lit(SRP_LABEL) + self.salt_v + A_v + self.B_v + K_v) + ")",)))
+        else:
+            M1_v = U.abstract(M1)
+        if not ok and not self.lenient:
+            return False, reject
+        proof = U.hash(A_v + M1_v + K_v)
+        return ok, [(T_STATE, lit(b"\x04")), (T_PROOF, proof)]
+
+    def on_m5(self, m5: bytes):
+        """returns (accepted, M6Draft | reject items)"""
+        U = self.U
+        reject = [(T_STATE, lit(b"\x06")), (T_ERROR, lit(b"\x02"))]
+        d = dict(ref_decode(m5) or [])
+        self.m5_ok = False
+        if self.K is None or d.get(T_STATE) != b"\x05" or T_ENC not in d:
+            return False, reject
+        key = hkdf_sha512(self.K.b, L_PSE_SALT, L_PSE_INFO)
+        pt = aead_open(key, nonce12(b"PS-Msg05"), b"", d[T_ENC])
+        if pt is None:
+            return False, reject
+        sub = dict(ref_decode(pt) or [])
+        if T_ID not in sub or T_PK not in sub or T_SIG not in sub:
+            return False, reject
+        cx = hkdf_sha512(self.K.b, L_PSC_SALT, L_PSC_INFO)
+        if not ed_verify(sub[T_PK], sub[T_SIG], cx + sub[T_ID] + sub[T_PK]):
+            return False, reject
+        self.m5_ok = True
+        self.stored = (bytes(sub[T_ID]), bytes(sub[T_PK]))
+        U._reg(V(sub[T_PK], (f"pub({self.ctrl_ltsk_name})",)))
+        return True, self.draft_m6()
+
+    def draft_m6(self):
+        U = self.U
+        ax = U.hkdf(self.K, lit(L_PSA_SALT), lit(L_PSA_INFO))
+        pk = U.edpub(self.ltsk)
+        sig = U.sign(self.ltsk, ax + lit(self.acc_id) + pk)
+        return M6Draft(lit(b"\x06"), [(T_ID, lit(self.acc_id)), (T_PK, pk), (T_SIG, sig)],
+                       U.hkdf(self.K, lit(L_PSE_SALT), lit(L_PSE_INFO)), lit(nonce12(b"PS-Msg06")), lit(b""))
+
+
+def _utf8(b: bytes):
+    try:
+        return b.decode("utf-8")
+    except UnicodeDecodeError:
+        return None
+
+
+def oracle_setup(m2, m4, m6, transport, code: bytes, a, A):
+    """Independent evaluation of the C03 acceptance condition on the delivered bytes.
+    a = the client's SRP secret (int) and A = its public key bytes.
+    Returns (record-core, None) = ((acc_id str, ltpk bytes), None) when returning pairing data is justified,
+    else (None, reason)."""
+    v2 = _view(m2, transport, [T_STATE, T_ERROR, T_PK, T_SALT])
+    if v2 is None:
+        return None, "m2:not-tlv8"
+    if T_ERROR in v2:
+        return None, "m2:error-item" + ("" if T_STATE in v2 else ":state-absent")
+    if T_STATE in v2 and v2[T_STATE] != b"\x02":
+        return None, "m2:state"
+    if T_PK not in v2 or T_SALT not in v2:
+        return None, "m2:field-missing"
+    salt = norm_salt(v2[T_SALT])
+    if salt is None:
+        return None, "m2:salt-too-long"
+    if m4 is None:
+        return None, "m4:absent"
+    v4 = _view(m4, transport, [T_STATE, T_ERROR, T_PROOF, T_ENC])
+    if v4 is None:
+        return None, "m4:not-tlv8"
+    if T_ERROR in v4:
+        return None, "m4:error-item" + ("" if T_STATE in v4 else ":state-absent")
+    if T_STATE in v4 and v4[T_STATE] != b"\x04":
+        return None, "m4:state"
+    if T_PROOF not in v4:
+        return None, "m4:field-missing"
+    K = srp_client_K(code, salt, a, A, v2[T_PK])
+    M1 = srp_client_proof(salt, A, v2[T_PK], K)
+    if int.from_bytes(v4[T_PROOF], "big") != int.from_bytes(srp_server_proof(A, M1, K), "big"):
+        return None, "m4:proof"
+    if m6 is None:
+        return None, "m6:absent"
+    v6 = _view(m6, transport, [T_STATE, T_ERROR, T_ENC])
+    if v6 is None:
+        return None, "m6:not-tlv8"
+    if T_ERROR in v6:
+        return None, "m6:error-item" + ("" if T_STATE in v6 else ":state-absent")
+    if T_STATE in v6 and v6[T_STATE] != b"\x06":
+        return None, "m6:state"
+    if T_ENC not in v6:
+        return None, "m6:field-missing"
+    pt = aead_open(hkdf_sha512(K, L_PSE_SALT, L_PSE_INFO), nonce12(b"PS-Msg06"), b"", v6[T_ENC])
+    if pt is None:
+        return None, "m6:auth-tag"
+    sub = ref_decode(pt)
+    if sub is None:
+        return None, "m6:sub-tlv"
+    sub = dict(sub)
+    if T_ID not in sub or T_PK not in sub or T_SIG not in sub:
+        return None, "m6:sub-field-missing"
+    ax = hkdf_sha512(K, L_PSA_SALT, L_PSA_INFO)
+    if not ed_verify(sub[T_PK], sub[T_SIG], ax + sub[T_ID] + sub[T_PK]):
+        return None, "m6:signature"
+    ident = _utf8(sub[T_ID])
+    if ident is None:
+        return None, "m6:identifier-not-text"
+    return (ident, bytes(sub[T_PK])), None
